@@ -81,6 +81,9 @@ def gen(tier, rng):
     yield nodegen.c10_script(r, "node-hub", 3, "hub", "tap", 60 if thorough else 25)
     # "for IPv4, IPv6 and MAC ranges alike": claims of every family in the nodes' configuration, nested and overlapping
     yield nodegen.families_script(r, "node-families", 8 if thorough else 4)
+    yield nodegen.announce_script(r, "announce-withdraw", 12)      # claims grow, shrink and are withdrawn altogether by later announcements
+    for sw in (False, True):
+        yield nodegen.nested_claims_script(r, "nested-claims-%d" % sw, sw)
     yield nodegen.mac_claims_script(r, "node-mac-claims", 6 if thorough else 3)
     # "a cached decision is reused no longer than the switch timeout and never beyond the life of the claim": the two timeouts differ
     yield nodegen.c10_script(r, "node-router-st7", 3, "router", "tun", 50 if thorough else 30, st=7, pt=300)
